@@ -1129,3 +1129,13 @@ pub broadcast proof fn lemma_seg_kept(a: &Compiler, b: &Compiler, x: int, y: int
     assert forall|i: int| 0 <= i < code(a).len() implies code(b)[i] == code(a)[i] by { assert(code(b).subrange(0, code(a).len() as int)[i] == code(b)[i]); }
     assert(seg(b, x, y) =~= seg(a, x, y));
 }
+// Compiler::new registers the builtin functions and variables in a fresh symbol table (two loops over static tables that
+// touch nothing but that table): replaced by this shim
+#[verifier::external_body] pub fn symtab_with_builtins() -> (r: SymbolTable) ensures st_depth(&r) == 0 { unimplemented!() }
+pub proof fn lemma_new(c: &Compiler)
+    requires c.scopes@.len() == 1, c.scope_index == 0, code(c).len() == 0, lns(c).len() == 0, sc(c).loop_stack@.len() == 0
+    ensures cwf(c)
+{
+    lemma_empty_stream(code(c));
+    assert(swf(&sc(c)));
+}
